@@ -77,10 +77,12 @@ public:
   }
 
 protected:
-  inline bool impl_create_sandbox(uintptr_t b, uint32_t ident = 0, bool ask_env = false)
+  inline bool impl_create_sandbox(uintptr_t b, uint32_t ident = 0, bool ask_env = false, bool fail_by_abort = false)
   {
     base = b;
     id = ident;
+    // like the dylib backend when the library cannot be loaded: the failure is an abort (an exception with RLBOX_USE_EXCEPTIONS)
+    if (fail_by_abort) detail::dynamic_check(env_u64(BM_TAG_CREATE) != 0, "BM: the backend could not be created");
     if (ask_env) return env_u64(BM_TAG_CREATE) != 0;
     return true;
   }
